@@ -36,6 +36,9 @@ def gen_model_(rng):
         k = rng.choice(["k%d" % j, rng.choice([0.5, 2.0])])         # named or numeric parameter
         if c < 6:
             reac = [rng.choice(SP) for _ in range(rng.randint(0, 4))]
+            if rng.chance(1, 5):
+                # two different species each taken twice, in some order
+                reac = rng.choice([["A", "A", "B", "B"], ["A", "B", "A", "B"], ["C", "B", "B", "C"], ["B", "A", "A", "B"]])
             prods = [rng.choice(SP) for _ in range(rng.randint(0, 3))]
             rx.append((reac, prods, "massaction", shared if shared is not None else {"k": k}))
         elif c < 8:
